@@ -10,6 +10,7 @@ import (
 	"math"
 	"math/big"
 	"math/bits"
+	"slices"
 	"sort"
 	"strings"
 	"sync"
@@ -925,6 +926,9 @@ func c15HistoryIndependence(run *mon.Run) {
 			}
 			steps := 6 + r.IntN(26)
 			var trace []string
+			// slices the original generator returned earlier in the sequence: later calls must not change them
+			var keep, keepCopy [][]int
+			var retained, retainedCopy *[][]int
 			descending := si%4 < 2 // half of the sequences favour a large bound right before a smaller one
 			lastSize := 0
 			for st := 0; st < steps; st++ {
@@ -955,10 +959,28 @@ func c15HistoryIndependence(run *mon.Run) {
 					}
 					lastSize = byteSize(uint64(max(k, 1) - 1))
 					name = fmt.Sprintf("Permutation(%d)", k)
+					sub := st%2 == 1 // SubPermutation(k, m) with m = k (the whole permutation) or a part of it
+					m := k
+					if sub && k > 1 && r.IntN(2) == 0 {
+						m = 1 + r.IntN(k)
+					}
+					if sub {
+						name = fmt.Sprintf("SubPermutation(%d,%d)", k, m)
+					}
 					call = func(g random.Rand) string {
-						p, err := g.Permutation(k)
-						if err != nil || !validPerm(p, k) {
+						var p []int
+						var err error
+						if sub {
+							p, err = g.SubPermutation(k, m)
+						} else {
+							p, err = g.Permutation(k)
+						}
+						if err != nil || len(p) != m || (m == k && !validPerm(p, k)) {
 							return fmt.Sprintf("INVALID:%v", err)
+						}
+						if retained != nil {
+							*retained = append(*retained, p)
+							*retainedCopy = append(*retainedCopy, append([]int{}, p...))
 						}
 						h := sha256.New()
 						for _, v := range p {
@@ -1007,7 +1029,9 @@ func c15HistoryIndependence(run *mon.Run) {
 					}
 				}
 				var a, b string
+				retained, retainedCopy = &keep, &keepCopy
 				okA := tryRun(func() { a = call(g) })
+				retained, retainedCopy = nil, nil
 				okB := tryRun(func() { b = call(fresh) })
 				run.Eval(1)
 				if !okA && !okB {
@@ -1031,6 +1055,12 @@ func c15HistoryIndependence(run *mon.Run) {
 					return
 				}
 				run.Count("history.calls", 1)
+				for ki := range keep {
+					if !slices.Equal(keep[ki], keepCopy[ki]) {
+						run.Violate("C15:returned-slice-changed-by-later-call", fmt.Sprintf("a permutation returned earlier in the sequence %v was changed by the later call %s: it was %v, it is now %v", trace[:len(trace)-1], name, keepCopy[ki][:min(len(keepCopy[ki]), 16)], keep[ki][:min(len(keep[ki]), 16)]), rep)
+						return
+					}
+				}
 			}
 			run.Shape(fmt.Sprintf("history|%v|%d", useTape, min(len(trace), 12)))
 			if si < 2 {
